@@ -148,6 +148,18 @@ def run(ctx):
             out_.violations.append({"what": "the scalar variable 'velocity' is overwritten by the vector merged from velocity_x/y/z (a variable is lost by the merge)",
                                     "case": {"hydro_vars": [v for v, _ in wit["hydro_vars"]]},
                                     "call_site": "utils.make_vector_arrays", "input_class": "merge_name_collision"})
+    # witness: a name with two component positions whose families are both complete is deleted twice (KeyError)
+    wit2 = ramses.gen_output(r, ndim=2, ncpu=1, levelmin=1, levelmax=1, nboundary=0, exact=True,
+                             hydro_vars=["density", "T_x_x", "T_x_y", "T_y_x"],
+                             with_grav=False, with_rt=False, with_part=False, with_sink=False)
+    with loadrun.Written(wit2) as w:
+        impl = loadrun.run_impl(osy, w, {}, want_trace=False)
+    out_.evaluations += 1
+    if impl["err"]:
+        out_.violations.append({"what": "a descriptor with the components T_x_x, T_x_y, T_y_x (a name with two component positions, both families "
+                                        "complete) cannot be loaded: " + impl["err"] + " (make_vector_arrays deletes T_x_x twice)",
+                                "case": {"hydro_vars": [v for v, _ in wit2["hydro_vars"]]},
+                                "call_site": "utils.make_vector_arrays", "input_class": "merge_shared_component"})
     out_.distribution = {"request_kinds": dist}
     out_.rule = ("outputs as in C01 (plus particles and sinks) x requests: groups switched off with False, group lists, random variable "
                  "lists over the amr/hydro/grav/rt/part descriptors (shuffled), partial component sets, descriptors with x-infixed names "
